@@ -1114,6 +1114,9 @@ def _iter_identityish(ctx, it):
                 out += [(b_and(g, g2), v2) for g2, v2 in iter_realise(ctx, v)]
             elif isinstance(v, tuple):
                 out += [(g, x) for x in v]
+            elif isinstance(v, (Ptr, PtrIte)):
+                from .models import _entries_of_slice
+                out += [(b_and(g, g2), v2) for g2, v2 in _entries_of_slice(ctx, v, True)]
             else:
                 raise Unsupported('flatten over %r' % (v,))
         return IterV(tuple(out))
@@ -1204,3 +1207,141 @@ def _iter_reduce(ctx, it, clos):
     if acc is None:
         return NONE
     return mk_option(have, acc)
+
+
+@model(r'^<std::ops::RangeInclusive<\w+> as std::iter::(Iterator|DoubleEndedIterator)>::rev$')
+def _range_incl_rev(ctx, r):
+    return ('rev_incl',) + tuple(r[1:])          # (start, end, exhausted)
+
+
+@model(r'^<std::iter::Rev<std::ops::RangeInclusive<\w+>> as std::iter::Iterator>::next$')
+def _rev_range_incl_next(ctx, p):
+    t = re.search(r'RangeInclusive<(\w+)>', ctx.callee).group(1)
+    tag, a, b, done = ctx.deref(p)
+    ex = ctx.ex
+    w = X.INT_TYPES[t][0]
+    has = b_and(b_not(done), ex.binop('Le', a, b, t))
+    last = ex.binop('Eq', a, b, t)
+    at_min = isinstance(b, CI) and b.v == 0
+    prev = b if at_min else ex.binop('Sub', b, CI(1, w), t)
+    if not isinstance(b, CI):
+        prev = ite(last, b, ex.binop('Sub', b, CI(1, w), t))
+    ctx.write(p, ('rev_incl', a, ite(has, prev, b) if not isinstance(has, bool) else (prev if has else b), b_or(done, b_and(has, last), b_not(has))))
+    return mk_option(has, b)
+
+
+@model(r'^<(u8|u16|u32|u64|u128|usize|i8|i16|i32|i64|i128|isize) as std::string::ToString>::to_string$')
+def _int_to_string(ctx, p):
+    v = ctx.deref(p)
+    t = re.match(r'^<(\w+) as', ctx.callee).group(1)
+    if not isinstance(v, CI):
+        raise Unsupported('to_string of a symbolic integer')
+    return StrV(str(v.signed() if X.INT_TYPES[t][1] else v.v))
+
+
+# ------------------------------------------------------------------ sorting (stable insertion network over if-then-else), extend, drain, dedup
+
+def _sort_dense(ctx, p, key_of, what):
+    s, a, b = _dense(ctx, p, what)
+    vals = [v for _, v in s.ents[a:b]]
+    if len(vals) > 16:
+        raise Unsupported('%s of more than 16 elements' % what)
+    keys = [key_of(v) for v in vals]
+    ex = ctx.ex
+    # stable insertion sort: element j moves left while strictly smaller than its left neighbour
+    for j in range(1, len(vals)):
+        k = j
+        while k > 0:
+            ka, kb = keys[k - 1], keys[k]
+            w = ka.w if isinstance(ka, CI) else bv(ka).size()
+            swap = ex.binop('Lt', kb, ka, 'u%d' % w)
+            if swap is False:
+                break
+            vals[k - 1], vals[k] = ite(swap, vals[k], vals[k - 1]), ite(swap, vals[k - 1], vals[k])
+            keys[k - 1], keys[k] = ite(swap, kb, ka), ite(swap, ka, kb)
+            k -= 1
+    whole = ctx.deref(Ptr(p.root, p.path))
+    ents = list(s.ents)
+    for k, v in enumerate(vals):
+        ents[a + k] = (True, v)
+    ctx.write(Ptr(p.root, p.path), tuple(v for _, v in ents) if isinstance(whole, tuple) else Seq(tuple(ents)))
+    return UNIT
+
+
+@model(r'^(core|std)::slice::<impl \[(u8|u16|u32|u64|usize)\]>::(sort|sort_unstable)$')
+def _slice_sort(ctx, p):
+    return _sort_dense(ctx, p, lambda v: v, 'sort')
+
+
+@model(r'^(core|std)::slice::<impl \[.*\]>::(sort_by_key|sort_unstable_by_key|sort_by_cached_key)::<(u8|u16|u32|u64|usize), .*>$')
+def _slice_sort_by_key(ctx, p, clos):
+    def key_of(v):
+        pv = ctx.ex.alloc(ctx.st, v)
+        k = call_under(ctx, True, clos, [pv])
+        if not is_int(k):
+            raise Unsupported('sort key that is not an unsigned integer')
+        return k
+    return _sort_dense(ctx, p, key_of, 'sort_by_key')
+
+
+@model(r'^<std::vec::Vec<.*> as std::iter::Extend<.*>>::extend::<.*>$')
+def _vec_extend(ctx, p, src):
+    s = ctx.deref(p)
+    if not isinstance(s, Seq):
+        raise Unsupported('extend on %r' % (s,))
+    it = _as_iter(ctx, src)
+    if isinstance(it, tuple):
+        raise Unsupported('extend from an unbounded range')
+    add = tuple((g, ctx.deref(v) if ('&' in ctx.callee.split('Extend<')[1][:2] and isinstance(v, (Ptr, PtrIte))) else v) for g, v in _ents(ctx, it))
+    ctx.write(p, Seq(s.ents + add))
+    return UNIT
+
+
+@model(r'^std::vec::Vec::<.*>::dedup$')
+def _vec_dedup(ctx, p):
+    s = ctx.deref(p)
+    if not (isinstance(s, Seq) and s.dense()):
+        raise Unsupported('dedup on a sparse sequence')
+    out = []
+    prev = None
+    for g, v in s.ents:
+        if prev is None:
+            out.append((True, v))
+        else:
+            same = struct_eq(ctx, prev, v)
+            if same is True:
+                continue
+            out.append((b_not(same), v))
+        prev = v
+    # prev must be "the last kept element": with symbolic equality the kept predecessor is ambiguous beyond adjacent pairs
+    if any(g is not True for g, _ in out):
+        raise Unsupported('dedup with symbolic equality')
+    ctx.write(p, Seq(tuple(out)))
+    return UNIT
+
+
+@model(r'^core::str::<impl str>::strip_prefix::<&str>$')
+def _str_strip_prefix(ctx, s, pat):
+    a, b = _lit(ctx, s), _lit(ctx, pat)
+    return some(StrV(a[len(b):])) if a.startswith(b) else NONE
+
+
+@model(r'^core::str::<impl str>::split_once::<(&str|char)>$')
+def _str_split_once(ctx, s, pat):
+    a = _lit(ctx, s)
+    b = chr(pat.v) if isinstance(pat, CI) else _lit(ctx, pat)
+    i = a.find(b)
+    return some((StrV(a[:i]), StrV(a[i + len(b):]))) if i >= 0 else NONE
+
+
+@model(r'^core::str::<impl str>::(starts_with|ends_with|contains)::<char>$')
+def _str_char_pattern(ctx, s, c):
+    if not isinstance(c, CI):
+        raise Unsupported('string pattern with a symbolic char')
+    a, ch = _lit(ctx, s), chr(c.v)
+    kind = ctx.callee.split('::')[-2] if ctx.callee.endswith('<char>') else ''
+    if 'starts_with' in ctx.callee:
+        return a.startswith(ch)
+    if 'ends_with' in ctx.callee:
+        return a.endswith(ch)
+    return ch in a
